@@ -946,3 +946,72 @@ def assignment_contracts():
                for cls in ("PVLEncoder", "ISISEncoder") for kl in ("int", "none")]
     out.append(c)
     return out
+
+
+def based_int_contracts():
+    """decode_non_decimal (C03): the value is int(<sign text><digits text>, base=int(<radix text>)) of the groups of the pattern
+    that matches; the Omni decoder takes the sign from whichever of the two positions is written and refuses both"""
+    from ..pyvc.objtheory import S, strcat, lit
+    I, B = z3.IntSort(), z3.BoolSort()
+    V = z3.Const("value_text", S)
+    fm = z3.Function("re_fullmatch", S, S, B)
+    int_ok_b = z3.Function("int_accepts_in_base", S, I, B)
+    int_val_b = z3.Function("int_value_in_base", S, I, I)
+    int_ok = z3.Function("int_accepts", S, B)
+    int_val = z3.Function("int_value", S, I)
+
+    def grp(re_, g):
+        return z3.Const(f"{re_}_group_{g}", S)
+
+    def has(re_, g):
+        return z3.Const(f"{re_}_has_group_{g}", B)
+
+    def pat(re_):
+        return z3.Const("pattern_" + re_, S)
+
+    def based(re_, sign_text):
+        digits, radix = grp(re_, "non_decimal"), grp(re_, "radix")
+        return int_ok(radix), int_ok_b(strcat(sign_text, digits), int_val(radix)), int_val_b(strcat(sign_text, digits), int_val(radix))
+
+    def groups_present(re_, names):
+        return z3.And(*[has(re_, n) for n in names])
+    out = []
+    # PVL: the first of binary / octal / hex that matches
+    names = ("binary_re", "octal_re", "hex_re")
+
+    def pvl_post(pre, post_, a, r):
+        conds, prev = [], []
+        for n in names:
+            rok, vok, val = based(n, grp(n, "sign"))
+            conds.append(z3.Implies(z3.And(fm(pat(n), V), *[z3.Not(fm(pat(p), V)) for p in prev]), r.t == val))
+            prev.append(n)
+        return [("the value of the first matching pattern's groups: int(sign + digits, base=int(radix))", z3.And(*conds)),
+                ("a value only when some pattern matches", z3.Or(*[fm(pat(n), V) for n in names]))]
+    req = lambda pre, a: [("the three patterns define the groups sign, radix, non_decimal (ground obligation)",   # noqa: E731
+                           z3.And(*[groups_present(n, ("sign", "radix", "non_decimal")) for n in names]))]
+    out.append(Contract("pvl.decoder.PVLDecoder.decode_non_decimal", params={"value": "text"}, requires=req, exits=[
+        Exit("return", res="int", post=pvl_post), Exit("ValueError")], props=("C03",)))
+    # ODL
+    n = "nondecimal_re"
+
+    def odl_post(pre, post_, a, r):
+        rok, vok, val = based(n, grp(n, "sign"))
+        return [("the value of the pattern's groups: int(sign + digits, base=int(radix))", z3.And(fm(pat(n), V), r.t == val))]
+    out.append(Contract("pvl.decoder.ODLDecoder.decode_non_decimal", params={"value": "text"},
+                        requires=lambda pre, a: [("groups", groups_present(n, ("sign", "radix", "non_decimal")))], exits=[
+        Exit("return", res="int", post=odl_post), Exit("ValueError")], props=("C03",)))
+    # Omni: either sign position, not both
+
+    def omni_post(pre, post_, a, r):
+        s1, s2 = grp(n, "sign"), grp(n, "second_sign")
+        two = has(n, "second_sign")
+        sign = z3.If(two, z3.If(s1 != lit(""), s1, s2), s1)
+        rok, vok, val = based(n, sign)
+        return [("a value only when the pattern matches and the two sign positions are not both written",
+                 z3.And(fm(pat(n), V), z3.Not(z3.And(two, s1 != lit(""), s2 != lit(""))))),
+                ("the sign is the one that is written (before the radix or after the '#'); value int(sign + digits, base=int(radix))",
+                 r.t == val)]
+    out.append(Contract("pvl.decoder.OmniDecoder.decode_non_decimal", params={"value": "text"},
+                        requires=lambda pre, a: [("groups", groups_present(n, ("sign", "radix", "non_decimal")))], exits=[
+        Exit("return", res="int", post=omni_post), Exit("ValueError")], props=("C03",)))
+    return out
